@@ -475,6 +475,199 @@ variant("drule-BREAK-flag-ignored", {DRU: DRU_HEAD + PREFIXER_PLAIN + DRULE_CLAS
 variant("drule-BREAK-base-only-if-dotted", {DRU: DRU_HEAD + PREFIXER_PLAIN + DRULE_CLASS.replace("self._name_relative_to_root = name_relative_to_root", "self._name_relative_to_root = name_relative_to_root if '.' in name_relative_to_root else None")}, expect="C07.R3")
 
 
+# ---------------------------------------------------------------------------------------------- second batch
+variant("conv-optional-rule-helper", {DCV: CONV_HEAD + """
+class DependencyToRuleConverter:
+    _VERBS = {True: "should_only", False: "should"}
+
+    def __init__(self, should_only_rule: bool) -> None:
+        self._should_only_rule = should_only_rule
+
+    def convert(self, dependencies: ParsedDependencies) -> list[RuleApplier]:
+        return sum([self._convert_should_rules(dependencies), self._convert_should_not_rules(dependencies)], [])
+
+    def _convert_should_rules(self, dependencies: ParsedDependencies) -> list[RuleApplier]:
+        if not dependencies.dependencies:
+            return []
+        rules = []
+        for importer in sorted(dependencies.dependencies):
+            subject = Rule().modules_that().are_named(importer)
+            verb = getattr(subject, self._VERBS[self._should_only_rule])()
+            rules.append(verb.import_modules_that().are_named(list(dependencies.dependencies[importer])))
+        return rules
+
+    @classmethod
+    def _convert_should_not_rules(cls, parsed_dependencies: ParsedDependencies) -> list[RuleApplier]:
+        candidates = [cls._should_not_rule(m, parsed_dependencies) for m in sorted(parsed_dependencies.all_modules)]
+        return [rule for rule in candidates if rule is not None]
+
+    @classmethod
+    def _should_not_rule(cls, importer: str, parsed: ParsedDependencies):
+        others = [m for m in parsed.all_modules if m != importer]
+        forbidden = [m for m in others if m not in parsed.dependencies.get(importer, frozenset())]
+        if not forbidden:
+            return None
+        return Rule().modules_that().are_named(importer).should_not().import_modules_that().are_named(sorted(forbidden))
+"""})
+
+variant("conv-dataclass-spec-objects", {DCV: CONV_HEAD + """
+import dataclasses
+
+@dataclasses.dataclass(frozen=True)
+class _Forbidden:
+    importer: str
+    importees: list[str]
+
+    def as_rule(self) -> RuleApplier:
+        return Rule().modules_that().are_named(self.importer).should_not().import_modules_that().are_named(self.importees)
+
+
+class DependencyToRuleConverter:
+    def __init__(self, should_only_rule: bool) -> None:
+        self._should_only_rule = should_only_rule
+
+    def convert(self, dependencies: ParsedDependencies) -> list[RuleApplier]:
+        should_rules = self._convert_should_rules(dependencies)
+        should_not_rules = self._convert_should_not_rules(dependencies)
+        return should_rules + should_not_rules
+
+    def _convert_should_rules(self, dependencies: ParsedDependencies) -> list[RuleApplier]:
+        return [self._generate_rule(importer, importees) for importer, importees in dependencies.dependencies.items()]
+
+    def _generate_rule(self, importer: str, importees: set[str]) -> RuleApplier:
+        rule_subject = Rule().modules_that().are_named(importer)
+        verb = rule_subject.should_only() if self._should_only_rule else rule_subject.should()
+        return verb.import_modules_that().are_named(list(importees))
+
+    @classmethod
+    def _forbidden(cls, parsed: ParsedDependencies) -> Iterator[_Forbidden]:
+        for importer in sorted(parsed.all_modules):
+            undrawn = parsed.all_modules - ({importer} | parsed.dependencies.get(importer, set()))
+            if undrawn:
+                yield _Forbidden(importer, sorted(undrawn))
+
+    @classmethod
+    def _convert_should_not_rules(cls, parsed_dependencies: ParsedDependencies) -> list[RuleApplier]:
+        return [spec.as_rule() for spec in cls._forbidden(parsed_dependencies)]
+"""})
+
+variant("mra-collect-format-str", {MUL: MUL_HEAD + """
+class MultipleRuleApplier(RuleApplier):
+    _SEPARATOR = "\\n"
+
+    def __init__(self, rule_appliers: list[RuleApplier]) -> None:
+        super().__init__()
+        self._rule_appliers = list(rule_appliers)
+
+    def assert_applies(self, evaluable: EvaluableArchitecture) -> None:
+        errors = self._collect(evaluable)
+        if errors:
+            raise AssertionError(self._format(errors))
+
+    def _collect(self, evaluable: EvaluableArchitecture) -> list[str]:
+        errors = []
+        for rule_applier in self._rule_appliers:
+            try:
+                rule_applier.assert_applies(evaluable)
+            except AssertionError as e:
+                errors.append(str(e))
+        return errors
+
+    @classmethod
+    def _format(cls, errors: list[str]) -> str:
+        return cls._SEPARATOR.join(errors)
+"""})
+
+variant("prefix-callable-object", {DRU: DRU_HEAD + """
+class _Qualifier:
+    def __init__(self, prefix: str | None) -> None:
+        self._prefix = prefix
+
+    def __call__(self, name: str) -> str:
+        if self._prefix is None:
+            return name
+        return "%s.%s" % (self._prefix, name)
+
+    def all(self, names) -> set[str]:
+        return {self(n) for n in names}
+
+
+class ModulePrefixer:
+    @classmethod
+    def prefix(cls, parsed_dependencies: ParsedDependencies, prefix: str | None) -> ParsedDependencies:
+        qualify = _Qualifier(prefix)
+        return ParsedDependencies(
+            all_modules=qualify.all(parsed_dependencies.all_modules),
+            dependencies={qualify(k): qualify.all(v) for k, v in parsed_dependencies.dependencies.items()},
+        )
+""" + DRULE_CLASS})
+
+variant("drule-converter-in-init-super", {DRU: DRU_HEAD + PREFIXER_PLAIN + """
+class DiagramRule(FileRule, BaseModuleSpecifier, RuleApplier):
+    def __init__(self, should_only_rule: bool = True) -> None:
+        super().__init__()
+        self._file_path: Path | None = None
+        self._name_relative_to_root: str | None = None
+        self._converter = DependencyToRuleConverter(should_only_rule)
+
+    def from_file(self, file_path: Path) -> BaseModuleSpecifier:
+        self._file_path = file_path
+        return self
+
+    def with_base_module(self, name_relative_to_root: str) -> RuleApplier:
+        self._name_relative_to_root = name_relative_to_root
+        return self
+
+    def base_module_included_in_module_names(self) -> RuleApplier:
+        return self
+
+    def _diagram_path(self) -> Path:
+        if self._file_path is None:
+            raise ImproperlyConfigured("A file path pointing to the diagram has to be specified.")
+        return self._file_path
+
+    @functools.cached_property
+    def _parser(self) -> PumlParser:
+        return PumlParser()
+
+    def assert_applies(self, evaluable: EvaluableArchitecture) -> None:
+        steps = self._parser.parse(self._diagram_path())
+        steps = ModulePrefixer.prefix(steps, self._name_relative_to_root)
+        MultipleRuleApplier(self._converter.convert(steps)).assert_applies(evaluable)
+"""})
+
+variant("drule-BREAK-rules-cached-across-reconfiguration", {DRU: DRU_HEAD + PREFIXER_PLAIN + """
+class DiagramRule(FileRule, BaseModuleSpecifier, RuleApplier):
+    def __init__(self, should_only_rule: bool = True) -> None:
+        self._file_path: Path | None = None
+        self._name_relative_to_root: str | None = None
+        self._should_only_rule = should_only_rule
+        self._messages: list[str] = []
+
+    def from_file(self, file_path: Path) -> BaseModuleSpecifier:
+        self._file_path = file_path
+        return self
+
+    def with_base_module(self, name_relative_to_root: str) -> RuleApplier:
+        self._name_relative_to_root = name_relative_to_root
+        return self
+
+    def base_module_included_in_module_names(self) -> RuleApplier:
+        return self
+
+    def assert_applies(self, evaluable: EvaluableArchitecture) -> None:
+        if self._file_path is None:
+            raise ImproperlyConfigured("A file path pointing to the diagram has to be specified.")
+        dependencies = ModulePrefixer.prefix(PumlParser().parse(self._file_path), self._name_relative_to_root)
+        for rule in DependencyToRuleConverter(self._should_only_rule).convert(dependencies):
+            try:
+                rule.assert_applies(evaluable)
+            except AssertionError as e:
+                self._messages.append(e.args[0])
+        if self._messages:
+            raise AssertionError("\\n".join(self._messages))
+"""}, expect="C07.R2")
+
 def main() -> int:
     here = Path(__file__).resolve().parents[1]
     sys.path.insert(0, str(here))
